@@ -167,10 +167,11 @@ type Cell struct {
 	PerInst   bool   `json:"rps_per_instance"`
 	Shared    bool   `json:"shared_client"`
 	Bound     int    `json:"bound"`
+	RPS       string `json:"rps,omitempty"` // "" once(shots) | const | composite | unlimited
 }
 
 func (c Cell) Name() string {
-	return fmt.Sprintf("%s|result=%s|instances=%d|shots=%d|perinst=%v|shared=%v", c.Pool, c.Result, c.Instances, c.Shots, c.PerInst, c.Shared)
+	return fmt.Sprintf("%s|result=%s|instances=%d|shots=%d|perinst=%v|shared=%v|rps=%s", c.Pool, c.Result, c.Instances, c.Shots, c.PerInst, c.Shared, c.RPS)
 }
 
 func deepCopy(v any) any {
@@ -284,7 +285,17 @@ func (r *run) scenario(x *vs.X) func(end, msg string) error {
 		Provider:        h.Ammo,
 		Aggregator:      h.Result,
 		NewGun:          newGun,
-		NewRPSSchedule:  func() (core.Schedule, error) { return schedule.NewOnce(int64(c.Shots)), nil },
+		NewRPSSchedule: func() (core.Schedule, error) {
+			switch c.RPS {
+			case "const":
+				return schedule.NewConst(4, time.Second), nil
+			case "composite":
+				return schedule.NewComposite(schedule.NewOnce(1), schedule.NewConst(0, 100*time.Millisecond), schedule.NewLine(2, 6, 500*time.Millisecond), schedule.NewOnce(1)), nil
+			case "unlimited":
+				return schedule.NewComposite(schedule.NewOnce(1), schedule.NewUnlimited(200*time.Millisecond)), nil
+			}
+			return schedule.NewOnce(int64(c.Shots)), nil
+		},
 		RPSPerInstance:  c.PerInst,
 		StartupSchedule: schedule.NewOnce(int64(c.Instances)),
 		DiscardOverflow: true,
@@ -357,7 +368,11 @@ func cells(thorough bool) []Cell {
 					if thorough && inst == 2 {
 						b = 2
 					}
-					out = append(out, Cell{Pool: p, Result: res, Instances: inst, Shots: 4, PerInst: per, Bound: b})
+					rps := []string{"", "const", "composite", "unlimited"}[(pi+ri+inst)%4]
+					if p == "http-scenario" || p == "grpc-scenario" {
+						rps = "" // long executions already
+					}
+					out = append(out, Cell{Pool: p, Result: res, Instances: inst, Shots: 4, PerInst: per, Bound: b, RPS: rps})
 				}
 			}
 		}
@@ -392,6 +407,39 @@ func raceKey(rep string) string {
 	return strings.Join(fr, "~")
 }
 
+// ownRace returns the first report of rep in which both access stacks run through pandora code. A
+// report with an access stack made only of scheduler frames (vs.* calling into the standard library
+// with race instrumentation disabled, so that e.g. a sync.Once inside time.NewTimer is not seen as
+// synchronization) says nothing about pandora and is dropped.
+func ownRace(rep string) string {
+	for _, one := range strings.Split(rep, "==================") {
+		if !strings.Contains(one, "DATA RACE") {
+			continue
+		}
+		blks := strings.Split(one, "\n\n")
+		n, ok := 0, true
+		for _, blk := range blks {
+			if strings.Contains(blk, "Goroutine ") && !strings.Contains(blk, "DATA RACE") {
+				break
+			}
+			n++
+			own := false
+			for _, m := range frameRe.FindAllStringSubmatch(blk, -1) {
+				if !strings.HasPrefix(strings.TrimPrefix(m[1], "github.com/yandex/pandora/"), "zverif/vs.") {
+					own = true
+				}
+			}
+			if !own {
+				ok = false
+			}
+		}
+		if ok && n >= 2 {
+			return "==================" + one
+		}
+	}
+	return ""
+}
+
 func classify(err error) string {
 	s := err.Error()
 	if i := strings.Index(s, ":"); i > 0 && i < 24 {
@@ -414,6 +462,7 @@ func TestWorker(t *testing.T) {
 	e.RealStop = out.Deadline()
 	e.Beat = out.BeatPtr()
 	e.StopOnViol = true
+	time.NewTimer(time.Hour).Stop() // run the standard library's lazy timer setup before any goroutine exists
 	var raceOff int64
 	spec.RaceReports(&raceOff) // anything reported during init is not ours
 	explore := func(c Cell, choices []int) (string, string, *vs.Result) {
@@ -426,7 +475,7 @@ func TestWorker(t *testing.T) {
 		var raceChoices []int
 		e.OnExec = func(res *vs.Result) {
 			if raceRep == "" {
-				if rep := spec.RaceReports(&raceOff); strings.Contains(rep, "DATA RACE") {
+				if rep := ownRace(spec.RaceReports(&raceOff)); rep != "" {
 					raceRep, raceChoices = rep, append([]int(nil), res.Choices...)
 				}
 			}
@@ -449,7 +498,7 @@ func TestWorker(t *testing.T) {
 		})
 		e.T = t
 		if raceRep == "" {
-			if rep := spec.RaceReports(&raceOff); strings.Contains(rep, "DATA RACE") {
+			if rep := ownRace(spec.RaceReports(&raceOff)); rep != "" {
 				raceRep = rep
 			}
 		}
@@ -468,6 +517,7 @@ func TestWorker(t *testing.T) {
 			}
 			_ = json.Unmarshal(spec.Replay, &rp)
 			_ = afero.WriteFile(memfs, "/gsc20.yaml", []byte(c20scenarioYAML), 0o644)
+			_ = afero.WriteFile(memfs, "/gsc20f.yaml", []byte(c20failYAML), 0o644)
 			_ = afero.WriteFile(memfs, "/gsc19.yaml", []byte(c19grpcScenarioYAML), 0o644)
 			r := &c20run{cell: rp.C20}
 			e.Scenario = r.scenario
